@@ -188,6 +188,7 @@ fn own_cell(kind: Kind, variant: usize, e: &mut Emit) {
         d == num
     };
     let outcome: String;
+    let closes0 = close_count(w);
     match variant {
         0 => {
             // register, deliver, unregister
@@ -227,6 +228,7 @@ fn own_cell(kind: Kind, variant: usize, e: &mut Emit) {
     }
     e.line(&format!("outcome={}", outcome));
     e.line(&format!("closed={}", !fd_open(w) as u8));
+    e.line(&format!("close_calls={}", close_count(w) - closes0));
     // the number is free now: occupy it with a sentinel and keep using the library
     let placed = sentinel_on(w);
     e.line(&format!("sentinel_placed={}", placed as u8));
@@ -329,6 +331,8 @@ pub fn run(tier: Tier) -> BResult {
                         bad = Some(format!("outcome {} (expected {})", p.find("outcome=").unwrap_or(""), want));
                     } else if p.find("closed=") != Some("1") {
                         bad = Some("the descriptor handed over is still open after removal / rejection".into());
+                    } else if p.find("close_calls=") != Some(["1", "1", "1", "1", "2"][*v]) && *v != 3 {
+                        bad = Some(format!("close() was called {} times on the descriptor number handed over (exactly once expected)", p.find("close_calls=").unwrap_or("")));
                     } else if p.find("sentinel_placed=") == Some("1") && p.find("sentinel_open=") != Some("1") {
                         bad = Some("the descriptor number was closed a second time later (a sentinel that took the number got closed)".into());
                     } else if p.find("later_wakes=") != Some("2") {
